@@ -26,7 +26,7 @@ use std::path::{Path, PathBuf};
 pub const META: PropertyMeta = PropertyMeta {
     id: "C13",
     level: "fault_enumeration",
-    rule: "for each generated case (backend x cipher, a pre-history of 1..8 content operations, one victim operation out of: secret create / update / delete / move, folder rename / flags / description / create / delete, compact folder, change folder password) the victim is first executed to completion on a copy to record the pre- and post-state of every event log and the ordered list of step-boundary probes it passes (probes sit before and after every log append, inside rewind / truncate / replace-all, inside the vault file header rewrite and splice, between each vault mutation and its event append, before the compaction replace); then EVERY (probe, hit) of that list is enumerated: a child process re-executes the victim on a fresh copy and is aborted at that point. Torn writes: for each pair of consecutive crash states, every file of the later state that extends the earlier one is truncated to byte prefixes of the appended region (first 6 and last 3 lengths plus a stride of 1/8 of the region in quick, every length for regions up to 4 KiB in thorough). Oracle on each abandoned directory through new_unauthenticated + sign_in: the account opens; every event log equals its pre- or its post-state; stored commits are the SHA-256 of their records; every served folder equals the replay of its log and its persisted mirror. Non-trivial = a crash point strictly inside the victim (not before its first or after its last write) or a truncation strictly inside an appended region. Distinct = distinct (case, crash point).",
+    rule: "the first 22 cases of a run cover every backend x victim-kind cell once, the others are drawn freely; for each generated case (backend x cipher, a pre-history of 1..8 content operations, one victim operation out of: secret create / update / delete / move, folder rename / flags / description / create / delete, compact folder, change folder password) the victim is first executed to completion on a copy to record the pre- and post-state of every event log and the ordered list of step-boundary probes it passes (probes sit before and after every log append, inside rewind / truncate / replace-all, inside the vault file header rewrite and splice, between each vault mutation and its event append, before the compaction replace); then EVERY (probe, hit) of that list is enumerated: a child process re-executes the victim on a fresh copy and is aborted at that point. Torn writes: for each pair of consecutive crash states, every file of the later state that extends the earlier one is truncated to byte prefixes of the appended region (first 6 and last 3 lengths plus a stride of 1/8 of the region in quick, every length for regions up to 4 KiB in thorough). Oracle on each abandoned directory through new_unauthenticated + sign_in: the account opens; every event log equals its pre- or its post-state; stored commits are the SHA-256 of their records; every served folder equals the replay of its log and its persisted mirror. Non-trivial = a crash point strictly inside the victim (not before its first or after its last write) or a truncation strictly inside an appended region. Distinct = distinct (case, crash point).",
     assumptions: &[
         "models process death (abort at a step boundary, page cache survives), not power loss: un-fsynced or reordered pages are out of scope",
         "crash points are the instrumented step boundaries plus byte prefixes of appended regions; a crash between two uninstrumented statements that both precede the next write is equivalent to the preceding boundary",
@@ -627,13 +627,39 @@ fn case_strategy() -> impl Strategy<Value = Case> {
     })
 }
 
+fn victim_kind(v: &Victim) -> usize {
+    match v {
+        Victim::CreateSecret { .. } => 0,
+        Victim::UpdateSecret { .. } => 1,
+        Victim::DeleteSecret { .. } => 2,
+        Victim::MoveSecret { .. } => 3,
+        Victim::RenameFolder { .. } => 4,
+        Victim::SetFlags { .. } => 5,
+        Victim::SetDescription { .. } => 6,
+        Victim::CreateFolder { .. } => 7,
+        Victim::DeleteFolder { .. } => 8,
+        Victim::CompactFolder { .. } => 9,
+        Victim::ChangeFolderPassword { .. } => 10,
+    }
+}
+const VICTIM_KINDS: usize = 11;
+
 fn run(shard: &Shard, rep: &mut Report) {
     let t = shard.tier;
-    let cases = shard.share(t.pick(32, 1_200));
+    let cases = shard.share(t.pick(48, 1_200));
     let limit = t.pick(0u64, 4096u64);
     let mut tally = Tally { shard, rep, seen_sigs: BTreeSet::new() };
     for i in 0..cases {
-        let c = sample_one(shard, &format!("case-{i}"), &case_strategy());
+        let mut c = sample_one(shard, &format!("case-{i}"), &case_strategy());
+        // stratified: the first 2 x 11 cases of a run (over all shards) cover every
+        // backend x victim-kind cell once, the rest is drawn freely
+        let g = shard.index as usize + shard.count as usize * i as usize;
+        if g < 2 * VICTIM_KINDS {
+            let kind = g / 2;
+            c.history.cfg.db = g % 2 == 1;
+            c.victim = sample_one(shard, &format!("victim-{i}"), &victim_strategy().prop_filter("kind", move |v| victim_kind(v) == kind));
+            *tally.rep.classes.entry("stratified-backend-x-victim-cell".into()).or_default() += 1;
+        }
         let r = block_on(run_case(&c, &mut tally, limit));
         sos_core::verif::set_clock(None);
         if let Err(f) = r {
